@@ -204,12 +204,18 @@ def lines_of(content):
 
 CONFLICT_MARKS = ("<<<<<<<", "=======", ">>>>>>>", "|||||||")
 FILES = ["a.txt", "src/b.rs", "c.md"]
-MACROS_AGREE = ["work", "amend", "rebase", "rebase-onto", "rebase-conflict-continue", "cherry-pick", "cherry-pick-n",
-                "cherry-pick-conflict-continue", "reset", "stash", "squash", "switch", "pull-ff", "pull-rebase"]
-MACROS_FULL = MACROS_AGREE + ["rebase-i-reorder", "rebase-i-squash", "rebase-i-fixup", "rebase-i-drop", "rebase-conflict-abort",
+MACROS_AGREE = ["work", "amend", "rebase", "rebase-onto", "rebase-opts", "rebase-noop", "rebase-conflict-continue",
+                "rebase-conflict-abort", "cherry-pick", "cherry-pick-n", "cherry-pick-conflict-continue", "reset",
+                "stash", "squash", "switch", "pull-ff", "pull-rebase", "pull-rebase-noop"]
+MACROS_FULL = MACROS_AGREE + ["rebase-i-reorder", "rebase-i-squash", "rebase-i-fixup", "rebase-i-drop", "rebase-conflict-abort-reset",
                               "rebase-conflict-skip", "cherry-pick-range", "cherry-pick-range-conflict", "cherry-pick-conflict-abort",
                               "reset-human", "reset-hard-head", "reset-forward", "stash-apply", "stash-human", "checkout-force",
                               "checkout-merge", "checkout-path", "revert"]
+# `git rebase <options> main`: option spellings that take a value as a separate word / attached / with `=`
+# (rebase_hooks.rs summarize_rebase_args has to skip the value to find the positionals)
+REBASE_OPTS = [["-X", "theirs"], ["-X", "ours"], ["-Xtheirs"], ["--strategy-option", "theirs"], ["--strategy-option=ours"],
+               ["-s", "ort"], ["--strategy", "ort"], ["--strategy=ort"], ["--empty", "drop"], ["--empty=keep"],
+               ["-s", "ort", "-X", "patience"], ["--no-stat", "-X", "theirs"]]
 
 
 class Scenario:
@@ -625,7 +631,7 @@ class Scenario:
             for _ in range(1 + rng.below(2)):
                 self.edit(self.who(), rng.pick(FILES), rng.pick(["top", "middle", "bottom"]))
             self.commit("amended", label="amend", extra=["--amend"])
-        elif name in ("rebase", "rebase-onto") or name.startswith("rebase-i-"):
+        elif name in ("rebase", "rebase-onto", "rebase-opts") or name.startswith("rebase-i-"):
             n = 3 if name.startswith("rebase-i-") else 2 + rng.below(2)
             br = self.feature(n, upstream=prm.get("upstream") or rng.pick(["other", "above"]))
             self.switch(br)
@@ -634,6 +640,9 @@ class Scenario:
                      "wl": orig in self.prev_obs["W"].get("wl", {})}
             if name == "rebase":
                 self.op("rebase", ["rebase", "main"], self.m_rebase(start))
+            elif name == "rebase-opts":
+                opts = prm.get("opts") or rng.pick(REBASE_OPTS)
+                self.op("rebase-opts", ["rebase"] + list(opts) + ["main"], self.m_rebase(start))
             elif name == "rebase-onto":
                 up = self.g("rev-parse", f"{br}~{n}")
                 start["upstreamArg"] = up
@@ -645,6 +654,29 @@ class Scenario:
                 self.op("rebase-abort", ["rebase", "--abort"], self.m_rebase_abort)
             self.work_commit("after rebase", ai=True)
             self.switch("main")
+        elif name == "rebase-noop":
+            # every commit of the branch is already upstream (same patch): git drops it, the todo is empty, no post-rewrite
+            br = self.new_branch()
+            self.switch(br, create=True)
+            self.edit(rng.pick(["s1", "s2"]), FILES[0], "middle")
+            self.commit(f"{br} dup")
+            src = self.head()
+            self.switch("main")
+            self.edit("human", "upstream.txt", "bottom", record_human=True)
+            self.commit(f"up for {br}")
+            self.low({"k": "plain", "args": ["cherry-pick", src]})       # set-up plumbing: neither mode sees it
+            self.switch(br)
+            orig, main = self.head(), self.g("rev-parse", "main")
+            start = {"orig": orig, "onto": main, "upstreamArg": main, "interactive": False,
+                     "wl": orig in self.prev_obs["W"].get("wl", {})}
+            self.op("rebase-noop", ["rebase", "main"], self.m_rebase(start))
+            if self.pending:
+                self.op("rebase-abort", ["rebase", "--abort"], self.m_rebase_abort)
+            follow = prm.get("then") or rng.pick(["commit", "reset"])
+            if follow == "reset":
+                self.op("reset-soft", ["reset", "-q", "--soft", "HEAD~1"], self.m_reset("soft"))
+            self.work_commit("after noop rebase", ai=True)
+            self.switch("main")
         elif name.startswith("rebase-conflict-"):
             br, p = self.conflict_branch()
             self.switch(br)
@@ -653,7 +685,7 @@ class Scenario:
                      "wl": orig in self.prev_obs["W"].get("wl", {})}
             self.op("rebase-conflict-stop", ["rebase", "main"], self.m_rebase(start))
             if self.pending:
-                act = name.split("-")[-1]
+                act = name.split("-")[2]
                 if act == "continue":
                     self.resolve(p)
                     self.op("rebase-continue", ["rebase", "--continue"], self.m_rebase_continue)
@@ -663,6 +695,10 @@ class Scenario:
                     self.op("rebase-abort", ["rebase", "--abort"], self.m_rebase_abort)
                 if self.pending:
                     self.op("rebase-abort", ["rebase", "--abort"], self.m_rebase_abort)
+            if name == "rebase-conflict-abort-reset":
+                # the hook entry points are still renamed away: an operation other than commit / checkout goes unseen
+                self.op("reset-soft", ["reset", "-q", "--soft", "HEAD~1"], self.m_reset("soft"))
+                self.commit("after reset")
             self.work_commit("after rebase", ai=True)
             self.work_commit("after rebase 2", ai=True)
             self.switch("main")
@@ -779,11 +815,30 @@ class Scenario:
             self.edit("s2", FILES[1], "bottom")
             self.commit("carried")
             self.switch("main")
-        elif name in ("pull-ff", "pull-rebase"):
+        elif name in ("pull-ff", "pull-rebase", "pull-rebase-noop"):
             if self.g("symbolic-ref", "-q", "--short", "HEAD") != "main":
                 self.switch("main")
             self.ensure_remote()
             self.low({"k": "plain", "args": ["push", "-q", "origin", "main"]})
+            if name == "pull-rebase-noop":
+                # the local commit lands upstream as the identical patch (plus one more commit): the pull skips it,
+                # the todo is empty and git runs no post-rewrite
+                p = FILES[0]
+                self.edit(rng.pick(["s1", "s2"]), p, "middle")
+                self.commit("local dup")
+                self.low({"k": "plain", "args": ["pull", "-q", "--ff-only"], "cwd": "peer"})
+                self.low({"k": "peer_write", "path": p, "content": self.q.read(p)})
+                self.low({"k": "plain", "args": ["add", "-A"], "cwd": "peer"})
+                self.low({"k": "plain", "args": ["commit", "-q", "-m", "peer dup"], "cwd": "peer"})
+                self.peer_commit()
+                orig = self.head()
+                def mk0(pre, rc, tr):
+                    up = self.g("rev-parse", "@{upstream}")
+                    start = {"orig": orig, "onto": up, "upstreamArg": up, "interactive": False, "wl": orig in pre["wl"]}
+                    return self.m_rebase(start, pull=True)(pre, rc, tr)
+                self.op("pull-rebase-noop", ["pull", "-q", "--rebase"], mk0)
+                self.work_commit("after noop pull", ai=True)
+                return
             self.peer_commit()
             if name == "pull-ff":
                 self.edit("s1", FILES[0], "middle")       # pending AI work carried over the fast-forward
